@@ -59,6 +59,15 @@ def cases(tier, rng):
     for p in ["λ1;", "λ1;λ2;", "`abc`", "1 2 3", "⟨`a`|1⟩", "kA", "3ɾ", "⟨⟩", "λx;", "@f|1;", "1£", "ki", "1 0/"]:
         for fl in ["j", "s", "W", "d", "L", "G", "g", "C", "l", "Ṫ", "ṡ", "J", "S", "…", "o", "O", "c"]:
             out.append((p, fl, [], True))
+    # inputs shaped to break out of each quoting layer they may pass through (a Vyxal string literal handed to
+    # Vyxal-exec, the Python literal the transpiler writes for it, input parsing)
+    can = "__import__('builtins').VY_CANARY.append(40)"
+    for t in ['`\\");' + can + '#`', '`");' + can + '#`', "`');" + can + "#`", '`\\\\");' + can + '#`', '`\n");' + can + '#`',
+              '"\\");' + can + '#', "';" + can + "#", '\\");' + can + '#', '`\\`);' + can + '#`', '‛\\"' + ");" + can + "#",
+              '`a`+`\\");' + can + '#`', '«\\");' + can + '#«', '`{' + can + '}`', '`%s`%' + can, '`\\x22);' + can + '#`']:
+        for prog in ("Ė", "?Ė", "E", "†", "ĖĖ", "?:ĖĖ", "wvĖ", "λĖ;†", "?S Ė", "Ė,"):
+            out.append((prog, "", [t], True))
+            out.append((prog, "D", [t], True))
     # inputs that are valid Python literals but no Vyxal values, and malformed ones: kept as strings, never an error
     odd = ["None", "...", "1e999", "-1e999", "b'x'", "1j", "True", "(1, 2)", "{1: 2}", "{1, 2}", "[None, 'x']", "[1, None]",
            "{'a': None}", "[[...]]", "1_000", "0x10", "0o7", "''", "[", "]", "\\", "'", "\"", "1e", "--1", "[1,", "nan", "inf",
